@@ -198,7 +198,7 @@ SmoothScens ==
    \cup {SM("act_affine", <<T("act_tanh", <<Add(z, d), mu, z, ab[1], ab[2]>>), T("act_tanh", <<Add(z, d), mu, z, Zero, One>>)>>,
             <<One, Sub(ab[1], ab[2])>>, Neg(ab[1]), <<cx, cx>>) : mu \in {Q(1, 4), Q(1, 2)}, z \in Zs, ab \in ABs, d \in Ds}
    \cup {SM("act_default", <<TD("act_tanh", SubSeq(<<x, Q(1, 100), Zero, R(-1), One>>, 1, n)), T("act_tanh", <<x, Q(1, 100), Zero, R(-1), One>>)>>,
-            M2, Zero, <<cx, cx>>) : n \in 1..4, x \in {Q(1, 256), Q(-1, 128), One}}
+            M2, Zero, <<cx, cx>>) : n \in {1, 3}, x \in {Q(1, 256), Q(-1, 128), One}}
    \cup {SM("act_default_exact", <<TD("act_tanh", <<x>>)>>, W1, Zero, C1) : x \in {Zero, One, R(-2)}}
         \* --- smooth_max / smooth_min
    \cup {SM("max_equal", <<T(fn, <<z, z, mu>>)>>, W1, Zero, <<c>>) : fn \in MaxMin, mu \in Mus, z \in Zs, c \in {cx, cy}}
@@ -250,17 +250,17 @@ SmoothScens ==
         \* ties at the extremum: the value contains log(k)/rho (cancelled by the mirrored term), the gradient is 1/k
    \cup {SM("ks_tie_sharp", <<KS(fn, R(100), xs), KS(IF fn = "ks_max" THEN "ks_min" ELSE "ks_max", R(100), [i \in 1..Len(xs) |-> Neg(xs[i])])>>,
             P2, Zero, <<>>) : fn \in KsFns,
-            xs \in {<<R(2), R(2), R(-9), R(13)>>, <<R(13), R(-9), R(-9), R(2)>>, <<R(13), R(-9), R(13), R(-9)>>, <<Q(1, 2), Q(1, 2), Q(1, 2)>>}}
+            xs \in {<<R(2), R(-9), R(13)>>, <<R(13), R(-9), R(-9)>>, <<R(13), R(-9), R(13)>>, <<Q(1, 2), Q(1, 2), Q(1, 2)>>}}
    \cup {SM("ks_tie", <<KS("ks_max", rho, <<z, z, z>>), KS("ks_min", rho, <<z, z, z>>)>>, P2, Mul(R(-2), z), <<>>) : rho \in {R(100), Q(1, 2)}, z \in Zs}
    \cup {SM("ks_shift", <<KS(fn, rho, <<z, Add(z, d), z>>), KS(fn, rho, <<Add(z, R(5)), Add(Add(z, d), R(5)), Add(z, R(5))>>)>>, M2, R(5), <<>>) :
             fn \in KsFns, rho \in {R(100), Q(1, 2)}, z \in Zs, d \in {Q(1, 256), Q(1, 4)}}
    \cup {SM("ks_neg", <<KS("ks_max", rho, <<z, Add(z, d), z>>), KS("ks_min", rho, <<Neg(z), Neg(Add(z, d)), Neg(z)>>)>>, P2, Zero, <<>>) :
             rho \in {R(100), Q(1, 2)}, z \in Zs, d \in {Q(1, 256), Q(1, 4)}}
-   \cup {SM("ks_scale", <<KS(fn, Mul(Q(1, 2), rho), <<Mul(R(2), z), Mul(R(2), Add(z, d))>>), KS(fn, rho, <<z, Add(z, d)>>)>>, <<One, R(-2)>>, Zero, <<>>) :
+   \cup {SM("ks_scale", <<KS(fn, Mul(Q(1, 2), rho), <<Mul(R(2), z), Mul(R(2), Add(z, d)), Mul(R(2), z)>>), KS(fn, rho, <<z, Add(z, d), z>>)>>, <<One, R(-2)>>, Zero, <<>>) :
             fn \in KsFns, rho \in {R(100), Q(1, 2)}, z \in Zs, d \in {Q(1, 256), Q(1, 4)}}
-   \cup {SM("ks_perm", <<KS(fn, rho, <<z, Add(z, d), Sub(z, d), z>>), KS(fn, rho, <<Sub(z, d), z, z, Add(z, d)>>)>>, M2, Zero, <<>>) :
+   \cup {SM("ks_perm", <<KS(fn, rho, <<z, Add(z, d), Sub(z, d)>>), KS(fn, rho, <<Sub(z, d), z, Add(z, d)>>)>>, M2, Zero, <<>>) :
             fn \in KsFns, rho \in {R(100), Q(1, 2)}, z \in Zs, d \in {Q(1, 256), Q(1, 4)}}
-   \cup {SM("ks_default", <<KSD(fn, <<z, Add(z, d)>>), KS(fn, R(100), <<z, Add(z, d)>>)>>, M2, Zero, <<>>) :
+   \cup {SM("ks_default", <<KSD(fn, <<z, Add(z, d), z>>), KS(fn, R(100), <<z, Add(z, d), z>>)>>, M2, Zero, <<>>) :
             fn \in KsFns, z \in Zs, d \in {Q(1, 256), Q(1, 4)}}
    \cup {SM("ks_default_sharp", <<KSD(fn, <<z, Add(z, R(8)), Add(z, R(8))>>), KS(fn, R(100), <<z, Add(z, R(8)), Add(z, R(8))>>)>>, M2, Zero, <<>>) :
             fn \in KsFns, z \in Zs}
